@@ -59,6 +59,12 @@ def instances(tier, seed):
         # contracts of polynomial matrices), which z3 does not find - the float-build twin below is the reachability witness of the same harness key
         out.append(dict(op="vmf", force=force, kind=kind, n=n_, obond=ob, run_opts=dict(max_paths=400, budget_s=8.0), limit_s=900,
                         label="tdvp_vmf right-hand side n=%d bond 2 operator bond %d force_ovlp=%s %s state" % (n_, ob, force, kind), key="vmf/%s" % ("force_ovlp" if force else "canonical")))
+    out.append(dict(op="vmf", force=False, kind="real", n=2, obond=2, method="tdvp_mu_vmf", run_opts=dict(max_paths=400, budget_s=8.0), limit_s=900,
+                    label="tdvp_mu_vmf right-hand side n=2 bond 2 operator bond 2 real state", key="vmf/mu"))
+    # (complex two-site state with the SVD contract: memory cap - the float-build twins carry the complex case)
+    for kind in ("real", "cplx"):
+        out.append(dict(op="vmf", force=False, kind=kind, n=3, obond=2, method="tdvp_mu_vmf", concrete=True,
+                        label="[float build] tdvp_mu_vmf right-hand side n=3 bond 2 operator bond 2 %s state (real LAPACK; reachability witness)" % kind, key="vmf/mu"))
     for force in (False, True):
         for kind in ("real", "cplx"):
             out.append(dict(op="vmf", force=force, kind=kind, n=3, obond=2, concrete=True,
@@ -69,6 +75,12 @@ def instances(tier, seed):
     chains = [(("e", "e"), (1, 2, 1)), (("e", "e", "e"), (1, 2, 2, 1))]
     if tier == "thorough":
         chains += [(("e", "w", "e"), (1, 2, 2, 1)), (("e", "e", "e", "e"), (1, 2, 2, 2, 1))]
+    # bond dimension 1 (product states): the zero-site step of a 1 x 1 bond matrix is still a propagation
+    for kinds, bonds in ((("e", "e"), (1, 1, 1)), (("e", "e", "e"), (1, 1, 1, 1))):
+        for method in ("tdvp_ps", "tdvp_ps2"):
+            for start in ("left", "right"):
+                out.append(dict(op="tdvp_sweep", kinds=kinds, bonds=bonds, method=method, start=start, local="arbitrary", imag=False, hop=False, run_opts=dict(budget_s=120.0),
+                                label="chain %s sweep %s bond dimension 1 centre starts %s local=arbitrary" % (method, "".join(kinds), start), key="sweep/%s/bond1" % method))
     for kinds, bonds in chains:
         for method in ("tdvp_ps", "tdvp_ps2"):
             for start in ("left", "right"):
@@ -166,7 +178,7 @@ def h_tdvp_sweep(ctx, P):
     from checks.c08 import sym_mpo
     model = lib.make_model(P["kinds"])
     n = model.nsite
-    qn = [[[0]]] + [[[0], [1]] for _ in range(n - 1)] + [[[0]]]
+    qn = [[[0]]] + [([[0], [1]] if P["bonds"][i_] == 2 else [[0]] * P["bonds"][i_]) for i_ in range(1, n)] + [[[0]]]
     qnidx = 0 if P["start"] == "left" else n - 1
     psi = lib.build_mps(ctx, "a", model, P["bonds"], [np.array(q) for q in qn], [1], qnidx, to_right=(qnidx == 0), kind="real", coeff="one")
     psi.evolve_config = EvolveConfig(getattr(EvolveMethod, P["method"]), **(dict(ivp_solver="RK45") if P.get("ivp") else {}))
@@ -559,7 +571,10 @@ def h_adaptive_taylor(ctx, P):
 
 
 def h_vmf(ctx, P):
-    """EvolveMethod.tdvp_vmf: `solve_ivp` is replaced by a stub that evaluates the right-hand side once at the initial point; eigh by contract (w, u).
+    """(tdvp_mu_vmf: the right overlap is not inverted through eigh; the right block is brought to R = u s v^T by the code's own SVD and the derivative is
+    (1/coef) (1 - P_i) [ (L_i x 1)^h (H psi) conj(v) ] diag(1/s') u^h with s' = s + sqrt(eps) exp(-s/sqrt(eps)); symbolically on two sites with the recorded (u, s, v),
+    in the float-build twins through an independent eigen-decomposition of R R^h: weights 1/(s s'), s = sqrt(w).)
+    EvolveMethod.tdvp_vmf: `solve_ivp` is replaced by a stub that evaluates the right-hand side once at the initial point; eigh by contract (w, u).
     Reference (derived independently in matrix form and validated numerically against the tangent-space projection of -i H psi): with L_i / R_i the dense
     left / right blocks of the state the derivative of site i is
         (1/coef) * S_L^-1 (1 - P_i) F_i (R_i R_i^h)^-1,   F_i = (L_i x 1)^h (H psi) R_i^h,   P_i = (S_L x 1) A_i S_L'^-1 A_i^h   (S_L = L_i^h L_i; = 1 in the left-canonical gauge)
@@ -567,6 +582,7 @@ def h_vmf(ctx, P):
     from renormalizer.mps import mps as mpsmod
     from renormalizer.utils import EvolveConfig, EvolveMethod, CompressConfig, CompressCriteria
     from symnum import stubs
+    from checks import chainsteps as cs_
     n = P["n"]
     force = P["force"]
     cplx = P["kind"] == "cplx"
@@ -595,7 +611,8 @@ def h_vmf(ctx, P):
     else:
         H = sym_op(ctx, model, n, P.get("obond", 1), "o")
     Hd = lib.dense_op(lib.tensors(H))
-    psi.evolve_config = EvolveConfig(EvolveMethod.tdvp_vmf, force_ovlp=force)
+    mu = P.get("method") == "tdvp_mu_vmf"
+    psi.evolve_config = EvolveConfig(EvolveMethod.tdvp_mu_vmf if mu else EvolveMethod.tdvp_vmf, force_ovlp=force)
     psi.evolve_config.vmf_auto_switch = False
     eps = psi.evolve_config.reg_epsilon
     rec = {}
@@ -657,9 +674,11 @@ def h_vmf(ctx, P):
             saved_clc = _MP.check_left_canonical
             _MP.check_left_canonical = lambda self_, *a, **k: True
             try:
-                psi.evolve(H, 0.1, normalize=False)
+                with cs_.SvdSpy() as svdspy:
+                    psi.evolve(H, 0.1, normalize=False)
             finally:
                 _MP.check_left_canonical = saved_clc
+                rec["svd"] = list(svdspy.records)
         except _Done:
             pass
     finally:
@@ -709,6 +728,7 @@ def h_vmf(ctx, P):
         missing.append(what)
         return None
     missing = []
+    mu_conds = []
     psi_d = lib.dense_vec(ts)
     Hpsi = Hd.dot(psi_d)
     coef = 1j
@@ -736,6 +756,26 @@ def h_vmf(ctx, P):
                 f = np.kron(iSL, np.eye(d, dtype=int)).dot(F)
             else:
                 f = F
+        elif mu:
+            Pm = A.dot(H_(A))
+            if ctx.symbolic:
+                # two sites: the recorded decomposition of the right block
+                recs = [r_ for r_ in rec.get("svd", []) if len(r_[2]) == 6]
+                if len(recs) != n - 1 or n != 2:
+                    missing.append("svd of the right block (%d recorded)" % len(recs))
+                    continue
+                arg, u_, s_, v_ = np.asarray(recs[0][0][0]), np.asarray(recs[0][2][0]), np.asarray(recs[0][2][1]), np.asarray(recs[0][2][3])
+                mu_conds.append(ctx.eq(arg.reshape(Rb.shape), Rb))
+                se = np.sqrt(eps)
+                sreg = [x + se * npx.exp(-x / se) for x in s_]
+                X_ = H_(G).dot(Hpsi.reshape(G.shape[0], -1)).dot(np.conj(v_))
+                f = (np.eye(l * d, dtype=int) - Pm).dot(X_).dot(np.diag([1 / x for x in sreg]).astype(object)).dot(H_(u_))
+            else:
+                w_, U_ = np.linalg.eigh(SR)
+                sv = np.sqrt(np.where(w_ > 0, w_, 0))
+                se = np.sqrt(eps)
+                sreg = sv + se * np.exp(-sv / se)
+                f = (np.eye(l * d) - Pm).dot(F).dot(U_.dot(np.diag(1 / (sv * sreg))).dot(U_.conj().T))
         else:
             iSR = inv_from(SR, True, "S_R[%d]" % (i + 1))
             if iSR is None:
@@ -758,6 +798,8 @@ def h_vmf(ctx, P):
     offs = [sum(sizes[:i]) for i in range(n)]
     for i, f in refs:
         conds.append(ctx.eq(rec["f"][offs[i]:offs[i] + sizes[i]], f))
+    if mu and ctx.symbolic:
+        ctx.check("mu_vmf: the tensor handed to the SVD is the dense right block", ctx.all(mu_conds))
     ctx.check("vmf: the initial vector handed to the ODE solver is the state's tensors", ctx.eq(rec["y0"], np.concatenate([t.ravel() for t in ts])))
     ctx.check("vmf: right-hand side = (1/i) S_L^-1 (1 - P_i) F_i S_R^-1 for every site (gauge-fixed TDVP equations; regularised right overlap)", ctx.all(conds))
 
